@@ -975,7 +975,7 @@ with eval_vexpr (fuel : nat) (x : vexpr) (st : state) {struct fuel} : res (value
           do '(itv, st1) <- eval_expr f it st;
           do items <- iter_items st1 itv;
           let hint := match itv with
-                      | VRange a b c => if c =? 0 then 0 else Z.quot (b - a) c      (* pyRange.Len() *)
+                      | VRange a b c => range_len a b c      (* pyRange.Len() *)
                       | _ => Z.of_nat (length items)
                       end in
           if hint <? 0 then Err EType else      (* makeslice: cap out of range *)
